@@ -22,9 +22,13 @@ func init() {
 	})
 }
 
+// methodsC07: the usual verbs plus explicit OPTIONS routes (the position of the OPTIONS root among the method roots
+// depends on when its first route was registered - and on nothing a request may observe).
+var methodsC07 = append(append([]string(nil), methods3...), "OPTIONS")
+
 func runC07(src sim.Source, o Opts) *Result {
 	res := newResult()
-	rr := &routingRun{src: src, res: res, f: routingFocus{prop: "C07", tsOptions: true, methods: methods3}}
+	rr := &routingRun{src: src, res: res, f: routingFocus{prop: "C07", tsOptions: true, methods: methodsC07}}
 	if !rr.build() {
 		return res
 	}
